@@ -182,6 +182,8 @@ def run_case(ctx, case):
         from . import _kinds
 
         return _kinds.run(ctx, case, "C05")
+    if case.get("kind") == "subtree":
+        return run_subtree(ctx, case)
     recipe = dict(case["recipe"], env=True)
     vals = case["values"]
     shapes = P.all_shapes(recipe)
@@ -280,6 +282,124 @@ def run_case(ctx, case):
     ctx.sample()
 
 
+# ------------------------------------------------------------------------------------------------- subcommand trees
+@G._memo
+def subtree_case_strategy():
+    """settings for ONE path of a generated tree of subcommands (trees, builder and environment naming shared with C17): options of every
+    parser on the path; the choice at each level either named explicitly or left to be inferred from the section that has settings"""
+    from . import c17
+
+    top = st.fixed_dictionaries({"opts": st.dictionaries(st.sampled_from(c17.OPTS), st.integers(0, 9), max_size=2), "required": st.just(True),
+                                 "subs": st.dictionaries(st.sampled_from(c17.NAMES), c17.node(1), min_size=1, max_size=3)})
+
+    def with_path(tree):
+        def build(draw):
+            path, levels, n = [], [], tree
+            while True:
+                vals = {o: draw(st.integers(10, 19)) for o in n["opts"] if draw(st.booleans())}
+                levels.append(vals)
+                if not n["subs"] or (not n["required"] and path and draw(st.integers(0, 3)) == 0):
+                    break
+                nm = draw(st.sampled_from(sorted(n["subs"])))
+                path.append(nm)
+                n = n["subs"][nm]
+            return {"kind": "subtree", "tree": tree, "path": path, "levels": levels, "named": [draw(st.booleans()) for _ in path]}
+
+        return st.composite(lambda draw: build(draw))()
+
+    return top.flatmap(with_path)
+
+
+def run_subtree(ctx, case):
+    """the same settings through every channel of a parser with nested subcommands"""
+    import warnings
+
+    from jsonargparse import ArgumentError
+
+    from . import c17
+
+    warnings.simplefilter("ignore")
+    tree, path, levels = case["tree"], case["path"], case["levels"]
+
+    def doc(named):
+        """nested document; a level's choice is named where asked for, and always where the section below would have no leaf"""
+        def rec(i):
+            d = dict(levels[i])
+            if i < len(path):
+                below = rec(i + 1)
+                d[path[i]] = below
+                if named[i] or not c17.hasleaf(below):
+                    d["sub"] = path[i]
+            return d
+
+        return rec(0)
+
+    def bare(i=0):
+        """only the option values: no choice is named and a section without a leaf is left out (the command line names the path)"""
+        d = dict(levels[i])
+        if i < len(path):
+            below = bare(i + 1)
+            if c17.hasleaf(below):
+                d[path[i]] = below
+        return d
+
+    full = doc([True] * len(path))
+    part = doc(case["named"])
+    argv = []
+    for i, vals in enumerate(levels):
+        argv += [f"--{o}={v}" for o, v in vals.items()]
+        if i < len(path):
+            argv.append(path[i])
+    envmap = c17.env_vars(full)
+    with _rt.scratch_dir() as d:
+        f = os.path.join(d, "settings.json")
+        with open(f, "w") as fh:
+            json.dump(part, fh)
+
+        def via_environ(default_env_late):
+            old = dict(os.environ)
+            os.environ.update(envmap)
+            try:
+                return c17.build(tree, default_env=True, late=default_env_late).parse_args([])
+            finally:
+                os.environ.clear()
+                os.environ.update(old)
+
+        chans = [("parse_object(named)", lambda: c17.build(tree).parse_object(copy.deepcopy(full))),
+                 ("parse_object", lambda: c17.build(tree).parse_object(copy.deepcopy(part))),
+                 ("parse_string", lambda: c17.build(tree).parse_string(json.dumps(part))),
+                 ("parse_path", lambda: c17.build(tree).parse_path(f)),
+                 ("--cfg string", lambda: c17.build(tree).parse_args(["--cfg", json.dumps(part)])),
+                 ("--cfg file", lambda: c17.build(tree).parse_args(["--cfg", f])),
+                 ("argv", lambda: c17.build(tree).parse_args(list(argv))),
+                 ("--cfg string + names on argv", lambda: c17.build(tree).parse_args(["--cfg", json.dumps(part)] + list(path))),
+                 ("--cfg string with the option values only + names on argv", lambda: c17.build(tree).parse_args((["--cfg", json.dumps(bare())] if bare() else []) + list(path))),
+                 ("parse_env(mapping)", lambda: c17.build(tree).parse_env(dict(envmap))),
+                 ("environment", lambda: via_environ(False)),
+                 ("environment (default_env set late)", lambda: via_environ(True))]
+        results = []
+        for name, fn in chans:
+            try:
+                results.append((name, ("ok", c17.norm(fn()))))
+            except ArgumentError as ex:
+                results.append((name, ("rej", short(str(ex), 160))))
+            except Exception as ex:  # noqa
+                ctx.cls(f"escape:{type(ex).__name__}@{innermost_pkg_frame(ex)}")
+                results.append((name, ("rej", "escape " + fmt_exc(ex))))
+    ref = results[0][1]
+    for name, r in results:
+        ctx.cls(f"subtree:{name}:{r[0]}")
+        if r[0] != ref[0]:
+            ctx.finding(f"C05/subcommands/accept-reject-differs/{name}-{'accepts' if r[0] == 'ok' else 'rejects'}-but-object-{'accepts' if ref[0] == 'ok' else 'rejects'}",
+                        {"channel": name, "result": short(r[1], 300), "object": short(ref[1], 300), "settings": short(full, 300)})
+        elif r[0] == "ok" and r[1] != ref[1]:
+            ctx.finding(f"C05/subcommands/value-differs/{name}", {"channel": name, "this_channel": short(r[1], 300), "object_channel": short(ref[1], 300), "settings": short(full, 300)})
+    if len(path) >= 2 or not all(case["named"]):
+        ctx.mark_nontrivial()
+    ctx.cls("subtree-depth:%d" % len(path))
+    ctx.sample()
+
+
 def _strings(v):
     if isinstance(v, str):
         yield v
@@ -326,7 +446,7 @@ def run_shard(spec, ctx):
     from . import _kinds
 
     main = case_strategy(spec["depth"])
-    strategy = with_spellings(st.integers(0, 4).flatmap(lambda i: _kinds.case_strategy() if i == 0 else main))
+    strategy = with_spellings(st.integers(0, 5).flatmap(lambda i: _kinds.case_strategy() if i == 0 else subtree_case_strategy() if i == 1 else main))
     if spec.get("kind") == "atheris":
         from ..core import run_atheris
 
